@@ -243,6 +243,86 @@ def memo_decorators(fi) -> list:
     return [ast.unparse(d) for d in fi.node.decorator_list if any(w in ast.unparse(d).lower() for w in ("cache", "memo"))]
 
 
+PRIVATE_GENERATORS = ("default_rng", "RandomState", "Generator", "SeedSequence", "PCG64", "MT19937", "Philox", "SFC64")
+
+
+def private_generators(world, fi, depth=0, seen=None) -> list:
+    """(function, line, source of the seed argument | None) for every construction of a private random generator reachable (by name,
+    inside pyxel/models) from fi: np.random.default_rng(x), RandomState(x), random.Random(x) ... With x absent or None the generator is
+    seeded from operating-system entropy, whatever seed context surrounds the call."""
+    seen = seen if seen is not None else set()
+    if fi.qualname in seen or depth > 6:
+        return []
+    seen.add(fi.qualname)
+    out = []
+    for n in ast.walk(fi.node):
+        if not isinstance(n, ast.Call):
+            continue
+        f = ast.unparse(n.func)
+        last = f.split(".")[-1]
+        if (last in PRIVATE_GENERATORS and ("random" in f or f == last)) or f in ("random.Random", "Random"):
+            arg = n.args[0] if n.args else next((k.value for k in n.keywords if k.arg in ("seed", "x", "entropy")), None)
+            out.append((fi, n.lineno, None if arg is None else DU.norm(fi.node, arg), f))
+        elif isinstance(n.func, ast.Name):
+            r = world.resolve(fi.module, n.func.id)
+            if r and r[0] == "function" and r[1].module.relpath.startswith("pyxel/models/"):
+                out.extend(private_generators(world, r[1], depth + 1, seen))
+    return out
+
+
+def seed_never_absent(src, fi=None) -> bool | None:
+    """True: the seed expression is a number for every input; False: it can be None / is missing; None: not decided on the text"""
+    if src is None or src == "None":
+        return False
+    if fi is not None and src.isidentifier():
+        a = fi.node.args
+        params = a.posonlyargs + a.args + a.kwonlyargs
+        defaults = dict(zip([x.arg for x in (a.posonlyargs + a.args)][::-1], a.defaults[::-1]))
+        defaults.update({x.arg: d for x, d in zip(a.kwonlyargs, a.kw_defaults) if d is not None})
+        for x in params:
+            if x.arg == src:
+                ann = ast.unparse(x.annotation) if x.annotation is not None else ""
+                d = defaults.get(src)
+                if "None" in ann or "Optional" in ann or (isinstance(d, ast.Constant) and d.value is None):
+                    return False              # an OPTIONAL seed parameter handed on as it is: None means entropy
+                return None
+    try:
+        v = ast.literal_eval(src)
+        return isinstance(v, int) and not isinstance(v, bool)
+    except Exception:
+        pass
+    if src.startswith(("np.random.randint(", "numpy.random.randint(", "int(np.random.", "np.random.integers(")):
+        return True                       # drawn from the (seeded) process-wide generator: a function of the surrounding seed
+    return None
+
+
+PRIVATE_REPLAYS = {"charge_deposition": lambda w: {"code": """
+import numpy as np, tempfile, warnings, pyxel
+from pathlib import Path
+from pyxel.detectors import CCD, CCDGeometry, Characteristics, Environment
+from pyxel.exposure import Exposure, Readout
+from pyxel.pipelines import DetectionPipeline, ModelFunction
+warnings.filterwarnings('ignore')
+DATA = Path(pyxel.__file__).parent / 'models' / 'charge_generation' / 'data'
+d = Path(tempfile.mkdtemp()); en = np.logspace(0.0, 3.0, 40); np.savetxt(d / 'spectrum.txt', np.column_stack([en, 1.0 / en]), header='energy flux')
+def run(spectrum, sampling, model_seed, prior):
+    np.random.seed(prior)
+    det = CCD(geometry=CCDGeometry(row=20, col=20, total_thickness=40.0, pixel_vert_size=10.0, pixel_horz_size=10.0), environment=Environment(temperature=200.0), characteristics=Characteristics(full_well_capacity=1000000))
+    pipe = DetectionPipeline(charge_generation=[ModelFunction(func='pyxel.models.charge_generation.charge_deposition', name='charge_deposition', arguments={
+        'flux': 30.0, 'step_size': 1.0, 'energy_mean': 100.0, 'energy_spread': 10.0, 'energy_spectrum': spectrum, 'energy_spectrum_sampling': sampling,
+        'stopping_power_curve': str(DATA / 'protons-in-silicon_stopping-power.csv'), 'seed': model_seed})],
+        charge_collection=[ModelFunction(func='pyxel.models.charge_collection.simple_collection', name='simple_collection')])
+    r = pyxel.run_mode(mode=Exposure(readout=Readout(times=[1.0]), pipeline_seed=11), detector=det, pipeline=pipe)
+    return np.array(r['pixel'].to_numpy(), copy=True)
+VIOLATED, DETAIL = False, 'a run seeded only through the pipeline seed is bit-identical whatever the process-wide generator held before'
+for spectrum, sampling in ((None, 'log'), (str(d / 'spectrum.txt'), 'log'), (str(d / 'spectrum.txt'), 'linear')):
+    a, b = run(spectrum, sampling, None, 1), run(spectrum, sampling, None, 2024)
+    if a.sum() == 0 or not np.array_equal(a, b):
+        VIOLATED, DETAIL = True, f'charge_deposition(energy_spectrum={"file" if spectrum else None}, sampling={sampling}) under pipeline_seed=11 and no model seed: two runs differ in {int((a != b).sum())} pixels (sums {a.sum():.3f} / {b.sum():.3f})'
+        break
+""", "expect": "every draw of a seeded run comes from the seeded process-wide generator or from a generator seeded from it"}}
+
+
 MEMO_REPLAYS = {"fixed_pattern_noise": lambda w: {"code": """
 import numpy as np, verif_probes as VP
 from pyxel.models.charge_collection import fixed_pattern_noise
@@ -293,6 +373,16 @@ VIOLATED, DETAIL = False, 'structural obligation: a draw outside the seed contex
                      witness={"function": fn.name, "memoised": [m[0] for m in memo]}, replay=MEMO_REPLAYS.get(fn.name, lambda w, name=fn.name: {"code": f"""
 VIOLATED, DETAIL = False, 'structural obligation: a function that draws random numbers for {name} is memoised (see witness); no prepared scenario for this model'
 """, "expect": "drawing functions are not memoised"}))
+            # private generators: seeded from entropy unless given a number — inside a seed context they escape the seed
+            for gfi, line, src, ctor in private_generators(u.world, fn):
+                verdict = seed_never_absent(src, gfi)
+                nm = f"model.private_generator_seeded[{fn.name}:{gfi.name}:{line}]"
+                if verdict is None:
+                    u.undecide(nm, gfi.qualname, f"{ctor}({src}): cannot tell from the text whether the seed can be absent")
+                else:
+                    u.static(nm, verdict, gfi.qualname, f"{ctor}({src}) in {gfi.name}: " + ("a number for every input" if verdict else "absent or possibly None (e.g. the model's own optional seed): seeded from OS entropy, "
+                             "the draws ignore a pipeline seed"), witness={"function": gfi.name, "line": line, "seed": src},
+                             replay=PRIVATE_REPLAYS.get(fn.name, lambda w, name=fn.name: {"code": f"VIOLATED, DETAIL = False, 'structural obligation: entropy-seeded private generator on the chain of {name} (see witness); no prepared scenario'", "expect": "private generators are seeded from the seed context"}))
     u.static("model.frame.cover", n >= 10, "", f"{n} model functions with a seed parameter found by scanning pyxel/models")
 
 
